@@ -1,7 +1,7 @@
 (* Extract.v — extraction of the executable model to OCaml.
    Directives: only those of ExtrOcamlBasic (bool, option, unit, prod, list,
    sumbool, sumor -> native OCaml types).  positive/N/Z/nat stay Coq inductives. *)
-From PauLie Require Import Pauli Matrix Sym ClosureN LieInv Star Validator Member Collection PauliBits Parser.
+From PauLie Require Import Pauli Matrix Sym ClosureN LieInv Star Validator Member Collection PauliBits Parser Compiler.
 Require Extraction ExtrOcamlBasic.
 Extraction Language OCaml.
 Extraction "oracle.ml"
@@ -14,4 +14,5 @@ Extraction "oracle.ml"
   member_strs space_strs
   mk run
   fresh apply_edit set_substring inc text get_index get_diagonal_index gen_all
-  parse_text k_local_generators.
+  parse_text k_local_generators
+  universal nested_eval compile_ok.
